@@ -7,7 +7,7 @@ DEEP_KINDS = ["bare", "bareint", "barequoted", "barewild", "feq", "feqint", "feq
               "fgt", "fge", "flt", "fle", "frange", "fxrange", "fxirange", "fmrange", "flist", "flist3"]
 
 
-ALL_KINDS = DEEP_KINDS + ["barenint", "barefloat", "barere", "feqifloat", "feqempty", "baresame", "feqsame", "fduplist", "fduplist3", "frangesame", "femptyfield", "femptylist"]
+ALL_KINDS = DEEP_KINDS + ["barenint", "barefloat", "barere", "feqifloat", "feqempty", "baresame", "feqsame", "fduplist", "fduplist3", "frangesame", "femptyfield", "femptylist", "fmixrange", "fmixrange2"]
 
 
 def common_assumptions(run):
